@@ -461,6 +461,19 @@ func c16(args []string) int {
 					bad.Write(w.P)
 					out.Count("renderings_after_a_failed_write_elsewhere", 1)
 				}
+				if nrend%5 == 2 {
+					// some other ConsoleWriter of the process was configured by editing, in place, the PartsOrder it got from
+					// the constructor (swap / delete idiom): its configuration is its own
+					other := zerolog.NewConsoleWriter()
+					if po := other.PartsOrder; len(po) >= 4 {
+						if nrend%2 == 0 {
+							po[0], po[1] = po[1], po[0]
+						} else {
+							other.PartsOrder = append(po[:2], po[3:]...)
+						}
+					}
+					out.Count("renderings_after_another_writer_edited_its_parts_order", 1)
+				}
 				var ob bytes.Buffer
 				cw := zerolog.ConsoleWriter{Out: &ob, NoColor: true, TimeFormat: c.TimeFormat, TimeLocation: c.Loc, PartsOrder: c.PartsOrder,
 					PartsExclude: c.PartsExclude, FieldsOrder: c.FieldsOrder, FieldsExclude: c.FieldsExclude}
